@@ -75,7 +75,13 @@ func newWorld(kind string, persistent bool) (*world, error) {
 }
 
 func schedRule(loc, id, sched, ver string) map[string]interface{} {
-	return map[string]interface{}{"schedule": sched, "action": map[string]interface{}{"code": fmt.Sprintf("location + ':%s:%s'", id, ver)}}
+	m := map[string]interface{}{"schedule": sched, "action": map[string]interface{}{"code": fmt.Sprintf("location + ':%s:%s'", id, ver)}}
+	if len(ver) > 0 && (ver[len(ver)-1]-'0')%3 == 0 {
+		// every third version has a condition without a solution: the tick evaluates the rule, no
+		// action runs, and a one-shot rule is gone afterwards all the same
+		m["condition"] = map[string]interface{}{"pattern": map[string]interface{}{"nosuch": "?z"}}
+	}
+	return m
 }
 
 func ordRule(id, ver string) map[string]interface{} {
@@ -244,10 +250,12 @@ func (w *world) check(r *rep.Report, changed bool) {
 		live := w.liveSched(loc)
 		sched, isLive := live[id]
 		var ver string
+		unsat := false
 		if isLive {
 			rb := ref.RuleBody(w.m[loc].Items[id])
 			code := fmt.Sprint(rb["action"].(map[string]interface{})["code"])
 			ver = strings.TrimSuffix(code[strings.LastIndex(code, ":")+1:], "'")
+			_, unsat = rb["condition"]
 		}
 		fr, cond := w.locs[loc].ProcessEvent(drv.Ctx(), core.Map{"trigger!": id})
 		ticks++
@@ -270,7 +278,13 @@ func (w *world) check(r *rep.Report, changed bool) {
 			continue
 		}
 		want := fmt.Sprintf("%s:%s:%s", loc, id, ver)
-		if len(vals) != 1 || vals[0] != want {
+		if unsat {
+			if len(vals) != 0 || cond != nil {
+				r.Violate("", "a due tick of a scheduled rule whose condition has no solution ran an action or failed", tw)
+				continue
+			}
+			r.Count("ticks_of_rules_with_unsatisfied_condition", 1)
+		} else if len(vals) != 1 || vals[0] != want {
 			r.Violate("", fmt.Sprintf("a due tick did not run exactly the scheduled rule in its own location (want [%s])", want), tw)
 			continue
 		}
